@@ -481,6 +481,44 @@ fn check_pieces(d: &Pieces) -> Result<(), String> {
     }
 }
 
+/// "... instead of a partial string", when it is the allocator that refuses: with the `k`-th allocator request of
+/// the conversion failing, an Ok result must still be the complete text (an Err or the documented panic is for C05
+/// to judge). `sloppy`: the Display impl ignores the results of its writes, as `let _ = f.write_str(..)` does.
+fn check_pieces_refused(d: &Pieces, k: u64, sloppy: bool) -> Result<bool, String> {
+    struct Sloppy<'a>(&'a [String]);
+    impl std::fmt::Display for Sloppy<'_> {
+        fn fmt(&self, f: &mut std::fmt::Formatter<'_>) -> std::fmt::Result {
+            for p in self.0 {
+                let _ = f.write_str(p);
+            }
+            Ok(())
+        }
+    }
+    let want: String = d.pieces.concat();
+    shadow::with(|h| {
+        h.begin_case();
+        h.fault_plan = vec![k];
+    });
+    let got = std::panic::catch_unwind(|| if sloppy { Sloppy(&d.pieces).try_to_lean_string() } else { PiecesDisplay(d).try_to_lean_string() });
+    let fired = shadow::with(|h| h.faults_fired) > 0;
+    let r = match &got {
+        Ok(Ok(s)) if s != want.as_str() => Err(format!(
+            "with allocator request #{k} refused, try_to_lean_string of a Display writing {} piece(s) ({} bytes) returned Ok with a partial text of {} bytes",
+            d.pieces.len(),
+            want.len(),
+            s.len()
+        )),
+        _ => Ok(fired),
+    };
+    drop(got);
+    let clean = heap_clean();
+    end();
+    if let (Ok(_), Some(c)) = (&r, clean) {
+        return Err(c);
+    }
+    r
+}
+
 /// Display impls with interior state: `to_string()` calls `fmt` exactly once, so a conversion that formats twice
 /// (e.g. to measure first) prints something else.
 fn check_impure_display(n: u32) -> Result<(), String> {
@@ -741,6 +779,21 @@ pub fn c15(tier: Tier, seed: u64) -> Verdict {
                 let clause = if d.err_at.is_some() { "C15.fmt_error" } else { "C15.to_lean_string" };
                 return (st, Some(Violation { case, clause: clause.into(), step: 0, detail: x }));
             }
+            if d.err_at.is_none() {
+                for k in 0..3u64 {
+                    for sloppy in [false, true] {
+                        st.evaluations += 1;
+                        match check_pieces_refused(d, k, sloppy) {
+                            Ok(true) => st.counters.push(("refused_conversions", 1)),
+                            Ok(false) => {}
+                            Err(x) => {
+                                let case = json!({"kind": "value", "domain": "pieces_refused", "v": serde_json::to_value(d).unwrap(), "k": k, "sloppy": sloppy});
+                                return (st, Some(Violation { case, clause: "C15.partial_text".into(), step: 0, detail: x }));
+                            }
+                        }
+                    }
+                }
+            }
             if let Some(x) = clean {
                 return (st, Some(Violation { case, clause: "C15.heap".into(), step: 0, detail: x }));
             }
@@ -775,7 +828,7 @@ pub fn c15(tier: Tier, seed: u64) -> Verdict {
         tier,
         seed,
         "exploration",
-        "both bools; all 1,112,064 chars (exhaustive); f32: every exponent x sign x 4096 mantissas (thorough: all 2^32 bit patterns); f64: every exponent x sign x 1000 mantissas plus proptest-random bit patterns; proptest texts through String / &str / Cow / Box<str> / user struct / LeanString in 4 storage states; piecewise Display impls (0-8 pieces, optional error position); oracle: to_string / write! into a String; floats: parse back to identical bits (NaN to NaN); non-trivial = subnormal/non-finite/boundary floats, 4-byte chars, non-ASCII or > 16-byte texts, multi-piece or failing displays; distinct values",
+        "both bools; all 1,112,064 chars (exhaustive); f32: every exponent x sign x 4096 mantissas (thorough: all 2^32 bit patterns); f64: every exponent x sign x 1000 mantissas plus proptest-random bit patterns; proptest texts through String / &str / Cow / Box<str> / user struct / LeanString in 4 storage states; piecewise Display impls (0-8 pieces, optional error position; also with each of the first three allocator requests refused, for impls that propagate or ignore write errors: never Ok with a partial text); oracle: to_string / write! into a String; floats: parse back to identical bits (NaN to NaN); non-trivial = subnormal/non-finite/boundary floats, 4-byte chars, non-ASCII or > 16-byte texts, multi-piece or failing displays; distinct values",
         ASSUME_VAL,
         &merged,
         t0.elapsed().as_secs_f64(),
@@ -1231,6 +1284,15 @@ pub fn replay_value(case: &Value) -> Option<Vec<(usize, String, String)>> {
                 if let Err(x) = check_pieces(&d) {
                     out.push((0, if d.err_at.is_some() { "C15.fmt_error" } else { "C15.to_lean_string" }.to_string(), x));
                 }
+            }
+            "pieces_refused" => {
+                let d: Pieces = serde_json::from_value(case.get("v")?.clone()).ok()?;
+                let k = case.get("k")?.as_u64()?;
+                let sloppy = case.get("sloppy")?.as_bool()?;
+                if let Err(x) = check_pieces_refused(&d, k, sloppy) {
+                    out.push((0, "C15.partial_text".to_string(), x));
+                }
+                begin();
             }
             _ => return None,
         },
